@@ -138,6 +138,32 @@ pub fn check(ctx: &mut Ctx) {
             F::Disagree(d) => ctx.case(pos, &key, "fdis", serde_json::json!({"what": d, "case": info})),
         }
     }
+    // "after an aggregation the limit applies to the ordered table" — also when further stages
+    // follow the limit: `agg | limit N | S` = `agg | sort by <aggregate columns> desc | limit N | S`
+    let nl = ctx.budget(200, 5000);
+    for _ in 0..nl {
+        let mut r = ctx.rng.fork();
+        let nrows = 4 + r.below(30);
+        let input = agg_docs(&mut r, nrows);
+        let (aggs, cols): (&str, Vec<&str>) = r.pick(&[("count", vec!["_count"]), ("count, sum(n)", vec!["_count", "_sum"]), ("sum(n) as s", vec!["s"])]).clone();
+        let agg = format!("{} by {}", aggs, r.pick(&["k", "k, m", "m"]));
+        let nlim = *r.pick(&[1i64, 2, 3, 5, -1, -2, -3]);
+        let after = *r.pick(&["", " | fields k", " | where 1 == 1", " | limit 2", " | fields except k", " | total(n) as t", " | sort by k", " | count"]);
+        let tail = format!(" | limit {}{}", nlim, after);
+        let key = ckey(&format!("{}{}", agg, tail), &input);
+        match implicit_sort_equiv("* | json", &agg, &cols, false, &tail, &input) {
+            None => ctx.case("limit-after-agg-then-stage", &key, "pass", serde_json::json!({"query": format!("* | json | {}{}", agg, tail)})),
+            Some((q1, q2, o1, o2)) => ctx.case("limit-after-agg-then-stage", &key, "viol", serde_json::json!({"class": "", "what": "a limit directly after an aggregation does not cut the ordered table (the result differs from the same query with the implicit sort written out)",
+                "query": q1, "query_with_explicit_sort": q2, "got": o1, "expected": o2, "input": String::from_utf8_lossy(&input)})),
+        }
+        let q1 = format!("* | json | {}{}", agg, tail);
+        let c = run_both(ctx, &q1, &input);
+        match compare(&c, true) {
+            F::Disagree(d) => ctx.case("model", &key, "fdis", serde_json::json!({"what": d, "query": q1, "input": String::from_utf8_lossy(&input)})),
+            F::Agree => ctx.case("model", &key, "pass", serde_json::json!({"query": q1})),
+            F::Skip(w) => ctx.case("model", "", "skip", serde_json::json!({"why": w.split(':').next().unwrap_or("").to_string()})),
+        }
+    }
     // static rules, on shard 0
     if ctx.shard == 0 {
         for (q, want_ok) in [
